@@ -459,7 +459,7 @@ S_OPTS = [{}, {}, {'case_sensitive': False}, {'strip_all': True, 'case_sensitive
           {'validation_pattern': '[a-zA-Z ]+', 'explain_validation': None},
           {'accept_any': True, 'min_length': 4, 'explain_minimums': 'msg'},
           {'accept_any': True, 'min_length': 4, 'explain_minimums': 'err'}]
-S_JUNK = ['zzz', 'unicorn', 'cat dog']
+S_JUNK = ['zzz', 'unicorn', 'cat dog', '', '  ']
 
 # value ranges on x, y in [1, 3]: [2,4] [11,13] [22,26] [31,39] [51,59] [72,76]; negatives mirrored; scaled
 # variants [200,400] [1100,1300] [2200,2600] [3100,3900] [5100,5900] [7200,7600]; junk beyond +-10000
@@ -472,7 +472,7 @@ F_FAMS = [
     {'forms': ['x+y+70', 'y+x+70', '70+y+x'], 'neg': ['-(x+y+70)'], 'scaled': ['100*(x+y+70)']},
 ]
 F_OPTS = [{}, {}, {'tolerance': 0.001}, {'tolerance': 0.001}, {'tolerance': '1%'}]
-F_JUNK = ['x+10000', '-50000+y', 'z+1', '1/(x-x)']
+F_JUNK = ['x+10000', '-50000+y', 'z+1', '1/(x-x)', '', '   ', '\t']     # blank boxes are submissions too
 # LinearComparer measures its fit error against tolerance x |student|: with a relative tolerance a student value of
 # large magnitude is "proportional" to anything, depending on the samples drawn.  It is used only where the
 # tolerance is absolute (0.001): then an unrelated pair has an error of the order of the spread of 5 samples
@@ -489,7 +489,7 @@ N_FAMS = [
     {'forms': ['0.5', '1/2', '.5'], 'neg': ['-0.5', '-1/2']},
 ]
 N_OPTS = [{}, {}, {'tolerance': '1%'}, {'tolerance': 0.001}]
-N_JUNK = ['77', '1000', 'foo', '1/0']
+N_JUNK = ['77', '1000', 'foo', '1/0', '', '  ']
 N_CMPS = ['sign']
 
 # MatrixGrader: entries at one position are equal or far apart: pos0 {1, x+20}, pos1 {2, 7, 2x+30, y+40},
@@ -514,7 +514,7 @@ M_OPTS = [{}, {'entry_partial_credit': 'proportional'}, {'entry_partial_credit':
           {'answer_shape_mismatch': {'is_raised': False, 'msg_detail': 'shape'}, 'entry_partial_credit': 'proportional'},
           {'answer_shape_mismatch': {'is_raised': False, 'msg_detail': None}},
           {'suppress_matrix_messages': True, 'entry_partial_credit': 0.5}]
-M_JUNK = ['[70,80,90]', '[[9,9],[9,9]]', '77', 'foo']
+M_JUNK = ['[70,80,90]', '[[9,9],[9,9]]', '77', 'foo', '', ' ']
 
 FAMS = {'F': F_FAMS, 'N': N_FAMS, 'M': M_FAMS}
 TOKENS = ['a', 'b', 'c', 'd', 'e', 'f']
@@ -868,6 +868,9 @@ def judge_slist(spec, rec):
     rec.cls('in-singlelist/ordered' if ordered else 'in-singlelist/unordered')
     rec.cls('in-singlelist/kind/' + kind)
     copts = {'ordered': ordered, 'delimiter': ';'}
+    if any(piece.strip() == '' for vec in spec['vectors'] for piece in spec['glue'].join(vec).split(';')):
+        copts['missing_error'] = False      # blank items are handed to the subgrader instead of being refused by the list
+        rec.cls('in-singlelist/blank-item')
     for oi, jo in enumerate(spec['orders']):
         answers = [answers_of(alts, o, oi, u) for alts, o, u in zip(slots, jo, spec['untupled'])]
         g = SingleListGrader(answers=answers, subgrader=make(kind, opts, wrong=wrong), **copts)
